@@ -129,7 +129,8 @@ func (p *EnhancedPass) IsSliceAppendCall(node *ast.CallExpr) (*types.Slice, bool
 	if funcName, ok := node.Fun.(*ast.Ident); ok {
 		if declObj := p.TypesInfo.Uses[funcName]; declObj != nil {
 			if declObj.String() == "builtin append" {
-				if sliceType, ok := p.TypesInfo.TypeOf(node.Args[0]).(*types.Slice); ok {
+				// the slice may be of a named type, e.g., `type list []I`
+				if sliceType, ok := p.TypesInfo.TypeOf(node.Args[0]).Underlying().(*types.Slice); ok {
 					return sliceType, true
 				}
 			}
